@@ -295,10 +295,11 @@ PROPS = {
                        'the set-based reference.',
     },
     'C13': {
-        'rules': ['R-FRAME', 'R-LINK', 'R-KEEP', 'R-PUNCTSEL', 'R-STALE', 'R-SYMTARGET', 'R-LITERALS', 'R-STATE', 'R-ORDERED'],
+        'rules': ['R-FRAME', 'R-LINK', 'R-KEEP', 'R-PUNCTSEL', 'R-STALE', 'R-SYMTARGET', 'R-LITERALS', 'R-STATE', 'R-ORDERED', 'R-MEMO'],
         'filter': {'R-STATE': both(rule('R-STATE/G1', 'R-STATE/G7'), site('transform', 'trees')),
                    'R-LITERALS': site('trees.'),
                    'R-ORDERED': both(rule('R-ORDERED/RAW'), site(*PUNCT)),
+                   'R-MEMO': site('transform.punctuation', 'trees.'),
                    'R-FRAME': site(*PUNCT), 'R-LINK': site(*PUNCT), 'R-KEEP': site(*PUNCT), 'R-STALE': site(*PUNCT)},
         'explanation': 'Decides: only tokens filtered by trees.PUNCT / PAIRPUNCT are moved; the moved set is '
                        'restricted by the documented conditions only; links are paired; no constituent is emptied '
